@@ -127,18 +127,19 @@ Cleared(p, c) == UNION {Listen(n).clear : n \in Close(Fires(p, c))} \cup UNION {
 \* @type: (Str, Str -> Int) => Set(Str);
 Rebuilt(p, c) == UNION {OpEffect(o).rebuild : o \in OpsRun(p, c)}
 
-\* the callbacks registered on a notifier (owner class . method), as the code registers them: used by trace validation
+\* the owners (public classes) of the callbacks registered on a notifier: used by trace validation.  Only the owner is named:
+\* how the owner's methods are called is the implementation's business
 \* @type: (Str, Str -> Int) => Set(Str);
 CallbackNames(n, c) ==
-  CASE n = "plasma"  -> {"BeamAttenuator._change", "Laser._plasma_changed"}
-                        \cup (IF c["P_models"] # 3 THEN {"PlasmaModel._change"} ELSE {})
-                        \cup (IF c["B_models"] # 3 THEN {"BeamModel._change"} ELSE {})
-    [] n = "comp"    -> {"Plasma._modified"}
-    [] n = "pmodels" -> {"Plasma._configure_geometry"}
-    [] n = "beam"    -> {"BeamAttenuator._change"} \cup (IF c["B_models"] # 3 THEN {"BeamModel._change"} ELSE {})
-    [] n = "bmodels" -> {"Beam._configure_geometry"}
-    [] n = "att"     -> {"Beam._modified", "Beam._configure_geometry"}
-    [] n = "profile" -> {"Laser.configure_geometry"}
+  CASE n = "plasma"  -> {"BeamAttenuator", "Laser"}
+                        \cup (IF c["P_models"] # 3 THEN {"PlasmaModel"} ELSE {})
+                        \cup (IF c["B_models"] # 3 THEN {"BeamModel"} ELSE {})
+    [] n = "comp"    -> {"Plasma"}
+    [] n = "pmodels" -> {"Plasma"}
+    [] n = "beam"    -> {"BeamAttenuator"} \cup (IF c["B_models"] # 3 THEN {"BeamModel"} ELSE {})
+    [] n = "bmodels" -> {"Beam"}
+    [] n = "att"     -> {"Beam"}
+    [] n = "profile" -> {"Laser"}
 \* callbacks that must be notified when parameter p is set (c = configuration after the assignment)
 \* @type: (Str, Str -> Int) => Set(Str);
 Required(p, c) == UNION {CallbackNames(n, c) : n \in Close(Fires(p, c))}
